@@ -397,12 +397,108 @@ pub fn run(ctx: &mut Ctx) {
             other => crate::ev::inconclusive(&format!("known_findings.txt lists an open C09 finding with an unknown key: {other}")),
         }
     }
+    if !fragment_leg(ctx) {
+        return;
+    }
     let cases = ctx.n(150_000, 3_000_000);
     run_tapes_par(ctx, 9, cases, 300, |c, tape| one(c, tape, tol));
 }
 
+/// E2: a trait that a `macro_rules!` macro assembles from fragments, entraited and plain side by side. The token comparison
+/// above cannot tell an `$e:expr` fragment that keeps its invisible delimiters from one that has them on paper only (rustc
+/// does not honour the delimiters of a group that a proc macro re-creates): what the default bodies *compute* can.
+pub fn fragment_src() -> String {
+    let methods = [
+        ("mul", "u32", "$a * 2", "4"),
+        ("neg", "i32", "-$a", "-2"),
+        ("not", "bool", "!$c", "false"),
+        ("meth", "String", "$a.to_string()", "String::from(\"2\")"),
+        ("pow", "i8", "$l.pow(2)", "4"),
+        ("cast", "u16", "$a as u16 * 3", "6"),
+        ("cond", "u8", "if $s == SONE { 1 } else { 2 }", "1"),
+        ("cond2", "u8", "if $c { 1 } else { 2 }", "1"),
+        ("range", "Vec<u32>", "($a..$a + 2).collect()", "vec![2u32, 3]"),
+        ("call", "u32", "$f(1)", "2"),
+        ("tail", "u32", "$a", "2"),
+        ("letx", "u32", "let x = $a; x * 2", "4"),
+        ("arr", "[u8; $a * 3]", "[0; $a * 3]", "[0u8; 6]"),
+        ("refd", "u32", "let g: &$t = &|| 5; g()", "5"),
+    ];
+    let mut s = String::from("#![allow(warnings)]\nuse crate::rt;\n#[derive(PartialEq, Debug)] pub struct S { pub x: u8 }\npub const SONE: S = S { x: 1 };\n");
+    s.push_str("macro_rules! mk {\n    ($a:expr, $c:expr, $l:literal, $s:expr, $f:expr, $t:ty) => {\n");
+    for (attr, name) in [("/*GEN*/ #[::entrait::entrait]\n", "Tr"), ("", "Plain")] {
+        s.push_str(&format!("{attr}        pub trait {name} {{\n"));
+        for (m, ty, body, _) in &methods {
+            s.push_str(&format!("            fn {m}(&self) -> {ty} {{ {body} }}\n"));
+        }
+        s.push_str("            fn dynref(&self, x: &$t) -> u32 { x() }\n        }\n");
+    }
+    s.push_str("    };\n}\nmk!(1 + 1, 1 + 1 == 2, -2i8, S { x: 1 }, |x: u32| x + 1, dyn Fn() -> u32 + Send);\npub struct App;\n/*GEN*/ impl Tr for App {}\nimpl Plain for App {}\n");
+    s.push_str("pub fn run() -> Vec<String> {\n    let mut fails: Vec<String> = vec![];\n");
+    for (m, _, body, want) in &methods {
+        s.push_str(&format!("    if Plain::{m}(&App) != {want} {{ fails.push(String::from(\"HARNESS: the plain trait computes something else for `{m}`\")); }}\n"));
+        s.push_str(&format!("/*GEN*/ rt::expect_eq(&mut fails, \"default body `{{ {} }}` assembled from fragments: the entraited trait vs the plain one\", &Tr::{m}(&App), &Plain::{m}(&App));\n", body.replace('"', "'").replace('{', "{{").replace('}', "}}")));
+        s.push_str(&format!("/*GEN*/ rt::expect_eq(&mut fails, \"the same through Impl<T>\", &Tr::{m}(&::entrait::Impl::new(App)), &Plain::{m}(&App));\n"));
+    }
+    s.push_str("/*GEN*/ rt::expect_eq(&mut fails, \"`&$t` parameter with `$t = dyn Fn() -> u32 + Send`\", &Tr::dynref(&::entrait::Impl::new(App), &|| 7), &7u32);\n");
+    s.push_str("    fails\n}\n");
+    s
+}
+
+fn fragment_leg(ctx: &mut Ctx) -> bool {
+    use crate::e2::{Batch, Opts};
+    let src = fragment_src();
+    let twin: String = src.lines().filter(|l| !l.starts_with("/*GEN*/")).collect::<Vec<_>>().join("\n");
+    let mut b = Batch::new("c09-fragments", Opts { feature_unimock: false, members: 1, ..Default::default() });
+    b.add("c00000", src.clone());
+    b.add("c00001", twin);
+    let out = b.build_and_run();
+    b.cleanup();
+    ctx.count_eval();
+    if out.compile_failed.contains_key("c00001") || out.ran.get("c00001").map(|r| r.0 != "ok").unwrap_or(true) {
+        crate::ev::inconclusive("c09-fragments: the plain twin of the fragment program does not compile or run");
+    }
+    if let Some(d) = out.compile_failed.get("c00000") {
+        ctx.violation(
+            &format!("a trait assembled from `macro_rules!` fragments does not compile once it is entraited (the plain twin does): {}", d.first().map(|x| format!("{} {}", x.code, x.message)).unwrap_or_default()),
+            &json!({"engine": "E2", "kind": "fragments", "src": src}),
+        );
+        return false;
+    }
+    match out.ran.get("c00000") {
+        Some((st, msg)) if st != "ok" => {
+            if msg.contains("HARNESS") {
+                crate::ev::inconclusive(&format!("c09-fragments: {msg}"));
+            }
+            ctx.violation(&format!("default bodies assembled from `macro_rules!` fragments do not compute what the plain trait computes: {msg}"), &json!({"engine": "E2", "kind": "fragments", "src": src}));
+            false
+        }
+        Some(_) => {
+            ctx.class("e2:default_bodies_and_signatures_from_macro_rules_fragments");
+            true
+        }
+        None => crate::ev::inconclusive("c09-fragments: the program produced no result"),
+    }
+}
+
 pub fn replay(ctx: &mut Ctx, v: &Value) {
     use super::s;
+    if v.get("kind").and_then(|k| k.as_str()) == Some("fragments") {
+        use crate::e2::{Batch, Opts};
+        let mut b = Batch::new("c09-fragments-replay", Opts { feature_unimock: false, members: 1, ..Default::default() });
+        b.add("c00000", s(v, "src"));
+        let out = b.build_and_run();
+        b.cleanup();
+        ctx.count_eval();
+        if out.compile_failed.values().next().is_some() {
+            ctx.violation("replayed trait assembled from `macro_rules!` fragments does not compile", v);
+        } else if let Some((st, msg)) = out.ran.get("c00000") {
+            if st != "ok" {
+                ctx.violation(&format!("default bodies assembled from `macro_rules!` fragments do not compute what the plain trait computes: {msg}"), v);
+            }
+        }
+        return;
+    }
     ctx.count_eval();
     match check(&s(v, "macro"), &s(v, "attr"), &s(v, "item"), Tol::default()) {
         Ok(_) => {}
